@@ -1456,6 +1456,13 @@ def check_c16(c, result):
         if len(q['frm']) == 2:
             k0, a0 = q['frm'][0]
             neigh.append((qid + '_drop', ' '.join(toks[:fi] + ['FROM', k0, 'AS', a0] + tail)))
+            # ... and each kind of the pair under the OTHER one's alias, asked for an accessor only that kind has (what an
+            # environment kept from the two-kind query would get wrong)
+            k1, a1 = q['frm'][1]
+            for tag_, (kk, aa, ko) in (('_crossa', (k1, a0, k0)), ('_crossb', (k0, a1, k1))):
+                own = [x for x in querygen.KINDS.get(kk, ([], [], []))[0] if x not in querygen.KINDS.get(ko, ([], [], []))[0]]
+                if own:
+                    neigh.append((qid + tag_, 'FROM %s AS %s WHERE %s.%s() != "zz9" SELECT %s.%s()' % (kk, aa, aa, own[0], aa, own[0])))
         k0, a0 = q['frm'][0]
         others = [k for k in kinds if k != k0] or ['class_declaration']
         swapped = [(c.rng.choice(others), a0)] + q['frm'][1:]
@@ -1495,7 +1502,7 @@ def check_c16(c, result):
         for nid, nt in neigh:
             b = nid.rsplit('_', 1)[0]
             pair = [(b, bd[b]), (nid, nt)] if rep != 1 else [(nid, nt), (b, bd[b])]
-            hist += [('%s#a%d%s' % (qid, rep, nid[-2:]), t) for qid, t in pair]
+            hist += [('%s#a%d%s' % (qid, rep, nid[-3:]), t) for qid, t in pair]
         hist += [('%s#%d' % (qid, rep), t) for qid, t in (sc if rep != 1 else sc[::-1])]
     res, ip, graph_after = c.run(hist)
     # stand-alone: every distinct query in a fresh process of its own batch (fresh graph)
